@@ -171,8 +171,10 @@ impl<S: Clone + Debug> SymbolTable<S> {
     }
 
     pub fn parent(&self, nx: SymbolIndex) -> Option<SymbolIndex> {
-        let mut edges = self.graph.edges_directed(nx, Direction::Incoming);
-        edges.next().map(|edge| edge.source())
+        // An exported symbol has more than one incoming edge. Its parent is the scope it was defined in, which
+        // is the edge that was added first (the graph lists the most recently added edge first).
+        let edges = self.graph.edges_directed(nx, Direction::Incoming);
+        edges.last().map(|edge| edge.source())
     }
 
     pub fn child(&self, nx: SymbolIndex, id: &Identifier) -> Option<SymbolIndex> {
